@@ -7,6 +7,6 @@ CONSTANTS
   Threads <- T2
   MaxOps = 6
 VIEW view
-INVARIANTS TypeOK NoDupNonce NoDupHash ReadyIsGapFree CountersExact NoStaleAfterBlock
+INVARIANTS TypeOK NoDupNonce NoDupHash ReadyIsGapFree CountersExact NoStaleAfterBlock BaseNonceSynced
 PROPERTIES ScanSyncs FullScanSyncsAll PutOutcome
 CHECK_DEADLOCK FALSE
